@@ -13,6 +13,10 @@ for mf in sorted(glob.glob(os.path.join(V, "seeded", "*", "meta.json"))):
     for pid, c in m.get("checks", {}).items():
         out.append("| %s | %s | %s | ./check %s %s | %s | %s |" % (m["name"], m["breaks"], "yes" if m.get("confirmed") else "NO", pid, c.get("tier", "quick"),
                    "**yes**" if c["fired"] else ("inconclusive" if c.get("inconclusive") else "**NO**"), (c.get("first_violation") or "").replace("|", "/")[:160]))
+    fr = m.get("final_recheck")
+    if fr:
+        out.append("| %s | %s | (as above) | ./check %s %s, final checks (verif %s, repo %s) | %s | %s |" % (m["name"], m["breaks"], m["breaks"], fr.get("tier", "quick"), fr.get("verif_commit"), fr.get("repo_commit"),
+                   "**yes**" if fr["fired"] else ("inconclusive" if fr.get("exit") == 3 else "**NO**"), (fr.get("first_violation") or "").replace("|", "/")[:160]))
 out += ["", "## Planted breaks (tools/planted.py; one small semantic edit each)", "",
         "| name | tests still pass | expected | result |", "|---|---|---|---|"]
 pr = os.path.join(V, "seeded", "planted_results.jsonl")
